@@ -172,6 +172,19 @@ theorem string_only_accepts_every_wire_string (fuel : Nat) (env : Env) (s : Json
       stringOk, lenBoundsOk, natKw, formatOk, arrayOk, objectOk, combinatorsOk]
   · cases hs
 
+/-- Finding FC02c: a plain string path parameter (as `get_schema_for_location` prepares it) cannot be violated on the
+    wire — every non-empty spelling conforms — although `can_negate` (canonicalish ≠ {}) calls it negatable. -/
+theorem string_path_parameter_cannot_be_violated (fuel : Nat) (env : Env) (w : String) (hw : w.length ≥ 1) :
+    partConforms (fuel + 2) env
+      (.obj [("properties", .obj [("id", .obj [("type", .str "string"), ("minLength", .num 1 0)])]),
+             ("additionalProperties", .bool false), ("type", .str "object"), ("required", .arr [.str "id"])])
+      (.obj [("id", .str w)]) = true := by
+  have h1 : validF (fuel + 2) env (.obj [("type", .str "string"), ("minLength", .num 1 0)]) (.str w) = true := by
+    simp [validF, Json.lookup, isNullable, Json.isNull, keywordsOk, typeOk, typeNameOk, enumOk, constOk, numberOk,
+      stringOk, lenBoundsOk, natKw, formatOk, arrayOk, objectOk, combinatorsOk]
+    omega
+  simp [partConforms, requiredOf, propsOf, Json.lookup, Json.str?, coercedValid, readings, h1]
+
 /-- **Skipped, not failed.** Nothing negatable: with `modes = [negative]` the test is skipped (`SkipTest`), with both
     modes the draw is rejected — never a case with valid data labelled negative (both variants). -/
 theorem skip_not_fail (v : Variant) (valid : Loc → Json → Bool) (op : Op) (only : Bool) (d : Draws)
